@@ -12,6 +12,7 @@ mod c02;
 mod c05;
 mod rulegen;
 mod probe;
+mod c04g;
 
 use std::path::PathBuf;
 
@@ -46,6 +47,8 @@ fn main() {
     "c07" => c07::run(&o),
     "c02" => c02::run_c02(&o),
     "c03" => c02::run_c03(&o),
+    "c04x" => c02::run_c04x(&o),
+    "c04g" => c04g::run(&o),
     "c05" => c05::run_stream(&o, "c05"),
     "c04" => c05::run_stream(&o, "c04"),
     s => { eprintln!("unknown stream {s}"); std::process::exit(2); }
